@@ -82,6 +82,10 @@ def compare(m, spec, rng, counters, bad, evals=EVALS, n_points=2, fd=True):
     ref = RefModel(spec)
     nS, nP, nE = ref.nS, ref.nP, ref.nE
     names = spec["states"] + spec["params"] + ["t"]
+    # the size of the model's individual flows and of their first derivatives: the scale against which a float residue of cancelling
+    # contributions (e.g. 2.8e-17*X*mu) is judged
+    contrib = [ref.V[i_, k_] * ref.R[k_] for i_ in range(nS) for k_ in range(nE) if ref.V[i_, k_] != 0] + [o_ for o_ in ref.O if o_ != 0]
+    model_scale = list(contrib) + [sympy.diff(c_, v_) for c_ in contrib[:12] for v_ in ref.X]
     for ev, getter, strict in evals:
         exp = ref.sym(ev)
         try:
@@ -96,7 +100,7 @@ def compare(m, spec, rng, counters, bad, evals=EVALS, n_points=2, fd=True):
         for i in range(exp.shape[0]):
             for j in range(exp.shape[1]):
                 counters["symbolic_comparisons"] += 1
-                eq, how = same_expr(got[i, j], exp[i, j], rng, names)
+                eq, how = same_expr(got[i, j], exp[i, j], rng, names, scale_terms=model_scale)
                 if not eq:
                     bad("%s differs from the true derivative" % getter, entry=[i, j], got=str(got[i, j]), expected=str(exp[i, j]))
                     break
